@@ -5,3 +5,5 @@ import DiplomatModel.Props.C04
 #print axioms DiplomatModel.Props.C04.nonstruct_edge_iff
 #print axioms DiplomatModel.Props.C04.struct_edge_iff
 #print axioms DiplomatModel.Props.C04.borrowMap_keys
+#print axioms DiplomatModel.Props.C04.nested_field_exact
+#print axioms DiplomatModel.Props.C04.nested_getter_exact
